@@ -7,6 +7,27 @@ CLAIMED = {
  "C01": dict(level="other", technique="static bounds proving on SSA (difference-bound + congruence prover over dominating guards), value summary of the padding function, loop-variant and call-graph-cycle check, taint of allocation sizes, path rule on entry points",
    text="Decides for every byte string and every buffer capacity, in both build tags (and GOARCH=386 in the thorough tier), that no index/slice/fixed-width access in the decode closure can leave len of its operand, that the attribute window is Raw[20:20+declared] and advances by the padded length, that every loop has a monotone variant, that no allocation size comes from the wire, that each entry point copies and returns Decode's error, and that Decode's success implies IsMessage. It is a static proof of the memory-safety/termination clauses, not of the Go runtime or stdlib (EXT table).",
    note="Trusted: go/types + go/ssa construction, the 900-line prover (checker/prove.go, summary.go), the EXT contracts listed in the evidence (binary.BigEndian accessors, io.Reader.Read, fmt). Not decided: stdlib/runtime behaviour, a misbehaving io.Reader.", ref="DESIGN.md section 4, C01"),
+ "C07": dict(level="other", technique="static bounds proving (len-bounded) over the getter/checker closure with nil-return summaries, field-access locality rule, save/restore path rule, sibling agreement of build-tag variants, panic-construct scan",
+   text="Decides, for every decodable message, capacity and both build tags: every index/slice/accessor/XorBytes in the getter/checker closure stays within len of its operand (so no panic and no read of padding, neighbours or spare capacity); getters load only their own attribute and the transaction ID; nothing in the closure writes message state except two verified save/restore pairs whose restore (field and header bytes) is on every path to every return; the release and debug variants of CheckSize/CheckOverflow/checkHMAC/checkFingerprint return nil under the same reference condition. Four obligations rest on reviewed invariants listed in the evidence (justified table).",
+   note="Trusted: go/ssa, the prover, EXT contracts (binary accessors, xor.XorBytes, hash.Hash), the justified-exception table (2 decoded-message invariants, 2 destination-buffer idioms, 2 write-side helpers). Not decided: correctness of the returned values (C06).", ref="DESIGN.md section 4, C07"),
+ "C09": dict(level="other", technique="predicate-consistent path rule (no mutation before a non-nil error return) over every Setter, effective-limit extraction from CheckOverflow call sites against a reviewed table, guard/dominance rules for IP length, default reason, FINGERPRINT and Build",
+   text="Decides for every path through every library setter that raw bytes, length and attribute list are untouched when a non-nil error is returned (nested setters by their own atomicity), that each text/error-code setter adds only on the nil edge of a length check whose effective limit equals the reviewed limit for its attribute type, that address setters add only for 4- or 16-byte IPs, that ErrorCode without default reason and integrity-after-FINGERPRINT are rejected before any mutation, and that Build stops at and returns the first error. Both build tags.",
+   note="Trusted: go/ssa, path engine, nil-return summary of CheckOverflow (rule C09.tags). The limit table (513/763) is the library's documented limits, reviewed against RFC 5389. User-supplied Setters are outside the analysis.", ref="DESIGN.md section 4, C09"),
+ "C10": dict(level="other", technique="path, dominance and ownership rules on the SSA form of client.go (once-guard, pool re-initialisation, removal/completion pairing with a registered bit, rollback, lookup-before-return, Do handshake ordering under the condition lock)",
+   text="Decides the structural premises of exactly-once completion for every branch history of the client: handler only under atomic.AddInt32==1, counter reset only on fresh pool objects before publication, all 7 transaction fields re-assigned before publication, every removal from the client table followed by exactly one completion while unregistered or by a complete re-registration, Start's registration rolled back on every error return, no return of the agent callback before the table lookup, Do waits iff Start succeeded, wait loop and callback/processed/broadcast ordering under the lock. It does not establish exactly-once as a property of concurrent traces.",
+   note="Trusted: go/ssa, path engine, sync/atomic and sync.Cond semantics, agent side by C13. Not decided: scheduler liveness; the Start-vs-Close window noted in DESIGN.md.", ref="DESIGN.md section 4, C10"),
+ "C11": dict(level="other", technique="alias/copy data-flow rules, who-may-write-the-connection rule, path rule for the strict attempt guard and single increment, field-access ownership of the RTO, canonical formula match",
+   text="Decides: the stored request is append(own[:0], msg.Raw...), the retransmitted buffer is a private full copy made before re-publication, only Start and the retransmission branch write the connection, every path to the retransmission write established attempt < maxAttempts and a non-nil event error and incremented the counter exactly once, Start zeroes the counter, WithNoRetransmit stores 0, the client RTO is read only at Start (atomically) and copied into the transaction, the deadline is now+(attempt+1)*rto, and the agent's deadline test is strict (C13). These are the premises of 'at most n+1 identical writes on schedule', not a timing measurement.",
+   note="Trusted: go/ssa, append/copy semantics. Not decided: wall-clock behaviour, SetRTO interleavings as traces.", ref="DESIGN.md section 4, C11"),
+ "C12": dict(level="other", technique="data-flow identity rules (lookup key, completed entry, event construction), lockset rule for atomic find-and-delete, dominance rules for the reader and the fallback handler, pool reset rule",
+   text="Decides: the client table is indexed by the event's own TransactionID; handle's receiver is the entry found and receives that event and message; lookup and removal are in one write-locked section; Agent.Process builds the event from the message's own ID and the message; the reader calls Process only on the nil edge of ReadFrom of the same message; the fallback handler is called only on the not-found edge and never for ErrTransactionStopped; put clears id/raw/attempt and no completion happens while the entry is registered (no stale entry survives recycling).",
+   note="Trusted: go/ssa, local store-to-load forwarding for the Event structs. Not decided: delivery over long pooled histories as traces.", ref="DESIGN.md section 4, C12"),
+ "C15": dict(level="other", technique="must-lockset dataflow with read/write modes, field-write ownership (construction phase vs shared phase), atomic-access consistency, must-pass-through pairing of go/Add/Done/Wait and of closed/collector/agent, dominance gate rules, lock-order graph",
+   text="Decides for every schedule and branch history: closed is tested and set in one write-locked section with ErrClientClosed on the second Close; Client.closed/t only under the mutex; fields set during construction are never stored later and rto/maxAttempts are only accessed atomically; the connection is closed only in Close under closeConn and outside loops; both goroutines are Add-registered, defer Done, and their owner's Close waits on every path after the stop signal; Close closes collector and agent on every path; Start's side effects and the retransmission branch are dominated by the not-closed edge; nothing foreign is called under the client mutex and the lock-order graph is acyclic.",
+   note="Trusted: go/ssa, VTA call graph, sync semantics. Not decided: goroutine exit as a runtime fact; injected collectors/connections beyond their stated preconditions.", ref="DESIGN.md section 4, C15"),
+ "C16": dict(level="other", technique="call-graph cycle detection, loop-variant check, bounds proving and panic-construct scan over the closure of ParseURI",
+   text="Decides for every input string: the module code reachable from ParseURI has no call-graph cycle (constant stack depth), every loop has a monotone variant, every index/slice is proved within len, and there is no explicit panic or unchecked assertion; with the four stdlib parsers total and linear (EXT) time and stack are bounded by the input length.",
+   note="Trusted: go/ssa, EXT contracts for net.SplitHostPort, url.Parse, url.ParseQuery, strconv.Atoi. err.Error() dispatch is treated as bounded by the wrapping depth of the error value.", ref="DESIGN.md section 4, C16"),
  "C13": dict(level="other", technique="per-method path and dominance rules on the SSA form of agent.go (closed guard, duplicate guard, removal/event pairing, strict deadline predicate, full scans)",
    text="Decides for every path through every Agent method the premises from which the abstract-table behaviour follows by induction over the call sequence: closed test first and ErrAgentClosed on the closed edge, insertion only on the not-exists edge, every removal paired with exactly one handler event carrying the removed ID (and the message for Process), handlers after removal and after unlock, strict deadline-before predicate, table scans without early exit, Close drains then drops the table and sets closed. It does not establish trace equivalence with the abstract table as such.",
    note="Trusted: go/ssa, the path engine (predicate-consistent CFG exploration), time.Time.Before/After/Compare semantics, map range visiting every entry. Not decided: equivalence over all call sequences as a trace property.", ref="DESIGN.md section 4, C13"),
